@@ -2,6 +2,7 @@ mod codec;
 mod effects;
 mod expr;
 mod kem;
+mod pathreq;
 mod treemath;
 mod window;
 
@@ -17,6 +18,7 @@ fn main() {
         "effects" => effects::run(&a[2], &a[3]),
         "window" => window::run(&a[2], &a[3]),
         "kem" => kem::run(&a[2], &a[3]),
+        "pathreq" => pathreq::run(&a[2], &a[3]),
         _ => std::process::exit(2),
     }
 }
